@@ -149,6 +149,9 @@ def parse_operand(s):
         return ("move", parse_place(s[5:]))
     if s.startswith("const "):
         return ("const", s[6:].strip())
+    if re.fullmatch(r"[A-Za-z_][\w:]*(::<.*>)?", s):
+        # a function item used as a value
+        return ("const", "ZeroSized: fn {%s}" % s)
     raise ParseError("operand %r" % s)
 
 
